@@ -61,8 +61,19 @@ def build_tree(rng, root):
     w(os.path.join(root, fs1), "<schema extends=%s><multikey name='k'/><key name='inc'/></schema>" % _qa(q(d1 + "/" + midn) + "#x"))
     w(os.path.join(lib, fmid), "<schema><import src=%s/><key name='mid' default='m'/></schema>" % _qa(q(d2 + "/" + basen) + "#types"))
     w(os.path.join(root, fs2), "<schema extends=%s><multikey name='k'/><key name='inc'/></schema>" % _qa(q(d1 + "/" + fmid)))
+    # a configuration reached through a symbolic link: references in it resolve against the NAME it was given by (all
+    # four entry points alike), not against the link's target
+    store, site = os.path.join(root, "store" + rand_name(rng, "")), os.path.join(root, "site" + rand_name(rng, ""))
+    os.makedirs(store)
+    os.makedirs(site)
+    ln, pn = rand_name(rng, "-l.conf"), rand_name(rng, "-p.conf")
+    w(os.path.join(store, "real-" + ln), "k from-linked\n%include " + q(pn) + "\ninc done\n")
+    w(os.path.join(store, pn), "k part-next-to-target\n")
+    w(os.path.join(site, pn), "k part-next-to-link\n")
+    os.symlink(os.path.join(store, "real-" + ln), os.path.join(site, ln))
     return {"schema": os.path.join(root, topn), "config": os.path.join(root, mainn), "dirs": [root, lib, deep, os.path.dirname(root)],
             "expect_k": ["from-main", "from-a", "from-b"],
+            "linked_config": os.path.join(site, ln), "linked_expect": ["from-linked", "part-next-to-link", "done"],
             "frag_configs": [os.path.join(root, fm1), os.path.join(root, fm2)],
             "frag_schemas": [os.path.join(root, fs1), os.path.join(root, fs2)]}
 
@@ -182,6 +193,26 @@ def run(ctx):
                             ctx.violate("configuration loaded by %s from cwd %r gives %r" % (cway, cwd, got),
                                         {"tree": _listing(root), "cwd": cwd, "way": cway, "arg": carg, "got": got, "expected": t["expect_k"]},
                                         signature="C18:config:%s:%s" % (cway, "exc" if isinstance(got, str) else "wrong-resource"))
+            # the symbolic link: same result through all four entry points
+            for cwd in t["dirs"]:
+                os.chdir(cwd)
+                sch0 = ZConfig.loadSchema(t["schema"])
+                for cway, carg in ways(t["linked_config"], cwd):
+                    ctx.evaluations += 1
+                    ctx.nontriv((root, cwd, cway, "symlink"))
+                    try:
+                        if cway.startswith("fileobj"):
+                            with open(carg, encoding="utf-8") as f:
+                                cfg, _ = ZConfig.loadConfigFile(sch0, f)
+                        else:
+                            cfg, _ = ZConfig.loadConfig(sch0, carg)
+                        got = list(cfg.k) + [cfg.inc]
+                    except Exception as e:
+                        got = "EXC:%s:%s" % (type(e).__name__, str(e)[:80])
+                    if got != t["linked_expect"]:
+                        ctx.violate("configuration named through a symbolic link, loaded by %s from cwd %r, gives %r" % (cway, cwd, got),
+                                    {"tree": _listing(root), "cwd": cwd, "way": cway, "arg": carg, "got": got, "expected": t["linked_expect"]},
+                                    signature="C18:symlink:%s:%s" % (cway, "exc" if isinstance(got, str) else "wrong-resource"))
             # a reference carrying a fragment identifier is rejected, whichever way the top resource is named
             good_schema = None
             for cwd in t["dirs"]:
